@@ -17,6 +17,7 @@ Interfaces: get_relative_path(file_path) -> Path, normalize_path_string(path) ->
 Implementation: Uses pathlib for robust path operations, handles ValueError for out-of-tree paths
 """
 
+import os
 from pathlib import Path
 
 
@@ -43,7 +44,10 @@ class PathResolver:
         try:
             if file_path.is_absolute():
                 return file_path.relative_to(self.project_root)
-            return file_path
+            # Relative spellings (e.g. "../pkg/a.py" from a sub-directory) name the same file:
+            # the verdict depends on the path inside the project, not on the working directory
+            absolute = Path(os.path.abspath(file_path))
+            return absolute.relative_to(os.path.abspath(self.project_root))
         except ValueError:
             # If path is outside project root, return it as-is
             # This allows detection of absolute paths in global_deny patterns
